@@ -198,8 +198,10 @@ pub fn run(ctx: &Ctx) -> i32 {
                         let mut k = p.clone();
                         k.push(*b);
                         // maps: value = per-prefix base + per-byte weight, so the wide nodes stay equivalent once the
-                        // common prefix of the outputs has moved onto the incoming transition
-                        let v = if variant < 3 { 0 } else { (pi as u64 + 1) * 1_000_000 + (bi as u64 % 7) * 3 };
+                        // common prefix of the outputs has moved onto the incoming transition; every other map variant
+                        // uses weights that are multiples of 2^33 (outputs far beyond u32 on the shared node)
+                        let unit: u64 = if variant == 4 { 1 << 33 } else { 3 };
+                        let v = if variant < 3 { 0 } else { (pi as u64 + 1) * 1_000_000 + (bi as u64 % 7) * unit };
                         kv.push((k, v));
                     }
                 }
@@ -212,14 +214,25 @@ pub fn run(ctx: &Ctx) -> i32 {
         }
         // sharing that must survive distance and history: (1) a few tiny states reused by many WIDE nodes across a file of
         // hundreds of KB (targets > 64 KiB back), (2) common suffixes separated by long runs of unique nodes
-        for variant in 0..ctx.tier.pick(6, 24) {
+        for variant in 0..ctx.tier.pick(9, 36) {
             if variant % n != shard {
                 continue;
             }
             let mut r = Rng::new(ctx.seed, 0x12_fa7 + variant as u64);
             let mut keys: Vec<Vec<u8>> = vec![];
             let what;
-            if variant % 2 == 0 {
+            if variant % 3 == 2 {
+                what = "keys sharing suffixes of 200..1200 bytes under different prefixes";
+                let suffix: Vec<u8> = (0..(200 + r.usize(1000))).map(|_| b'a' + r.below(3) as u8).collect();
+                for p in 0..(2 + r.usize(4)) {
+                    let mut k = vec![b'A' + p as u8, b'0' + (p % 3) as u8];
+                    if p % 2 == 0 {
+                        k.push(b'x');
+                    }
+                    k.extend_from_slice(&suffix);
+                    keys.push(k);
+                }
+            } else if variant % 2 == 0 {
                 what = "tiny states reused by many wide nodes far back";
                 let ntails = 4 + r.usize(20);
                 let nwide = 60 + r.usize(120);
@@ -312,9 +325,9 @@ pub fn run(ctx: &Ctx) -> i32 {
         ev,
         Spec {
             level: "exploration",
-            rule: "one evaluation = one build whose emitted node graph (read by the independent decoder) is compared with harness-side oracles: (1) always: #reachable nodes <= #nodes of the keys' prefix trie; (2) when the cache counters (hook H2) show zero evictions and the cache has cells: no two reachable nodes have the same signature (final, final output, [(byte, output, class(child))]) and, for sets, #nodes == #states of the minimal acyclic DFA computed by bottom-up right-language classes on the trie; (3) corpora as sets: (trie - emitted)/(trie - minimal) > 0.5; builds: ALL 32768 subsets of {a,b}^<=3 as sets (default geometry) and as two maps each (rotating geometries 10000x2, 0x0, 1x1, 1x3, 7x2, 64x2), the same wide fan under several prefixes, tiny states reused by 60-180 wide nodes across files of hundreds of KB, common suffixes separated by runs of 100-3000 unique nodes, random sets/maps to 3000 keys, thorough also all subsets of {a,b,c}^<=2; builds with evictions or without cache are counted and excluded from (2); non-trivial = every build; distinct = by fingerprint",
+            rule: "one evaluation = one build whose emitted node graph (read by the independent decoder) is compared with harness-side oracles: (1) always: #reachable nodes <= #nodes of the keys' prefix trie; (2) when the cache counters (hook H2) show zero evictions and the cache has cells: no two reachable nodes have the same signature (final, final output, [(byte, output, class(child))]) and, for sets, #nodes == #states of the minimal acyclic DFA computed by bottom-up right-language classes on the trie; (3) corpora as sets: (trie - emitted)/(trie - minimal) > 0.5; builds: ALL 32768 subsets of {a,b}^<=3 as sets (default geometry) and as two maps each (rotating geometries 10000x2, 0x0, 1x1, 1x3, 7x2, 64x2), the same wide fan under several prefixes, tiny states reused by 60-180 wide nodes across files of hundreds of KB, common suffixes separated by runs of 100-3000 unique nodes, suffixes of 200-1200 bytes shared under different prefixes, equivalent wide nodes whose outputs exceed 2^33, random sets/maps to 3000 keys, thorough also all subsets of {a,b,c}^<=2; builds with evictions or without cache are counted and excluded from (2); non-trivial = every build; distinct = by fingerprint",
             assumptions: vec!["the premise 'no eviction' is taken from the cfg-guarded counters in registry.rs; a tree that replaces the cache implementation keeps them at 0, i.e. claims never to evict".into(), "'most of the achievable sharing' is read as a ratio > 0.5; measured ratios are recorded".into()],
-            floors: vec![("builds:premise-no-eviction-observed", 1000), ("builds:sets-compared-with-minimal-dfa", 1000), ("builds:excluded-from-minimality(evictions-or-no-cache)", 10), ("corpora-judged", 2), ("builds:duplicated-wide-subautomata", 60), ("builds:far-back-and-history-shapes", 6)],
+            floors: vec![("builds:premise-no-eviction-observed", 1000), ("builds:sets-compared-with-minimal-dfa", 1000), ("builds:excluded-from-minimality(evictions-or-no-cache)", 10), ("corpora-judged", 2), ("builds:duplicated-wide-subautomata", 60), ("builds:far-back-and-history-shapes", 9)],
             exhaustive: Some(true),
         },
     )
